@@ -74,30 +74,29 @@ theorem wly_finish (r : Rule) (p : Inst) (nti n y0 m0 d0 incs : Nat) (hr : WfRul
     (hcap : nti ≤ n ∧ (0 ≤ r.count → (nti : Int) ≤ r.count))
     (hv : VD y0 m0 d0) (hinc : nibOk 8 incs 6 = true) (hy : y0 ≤ 2100) :
     ∃ l, (wlyLoop (mkCtx r p nti incs) (wlyDlyFuel y0 nti) y0 m0 d0 (getNdom y0 m0) []).map List.reverse = some l ∧
-      (TimeOk r p → FillOk r p n l) := by
+      FillOk r p n l := by
   obtain ⟨l, hl, hacc⟩ := wlyLoop_spec (mkCtx r p nti incs) hr hp hinc (wlyDlyFuel y0 nti) y0 m0 d0 []
     hv (by omega) (fun _ => ⟨Acc.nil _ _ _, Below.nil _ _ _⟩) (enough_start y0 m0 d0 nti hv)
   rw [hl]
-  exact ⟨l.reverse, rfl, fun ht => fillOk_of_acc (hacc (makeEnum_ok r p hr hp ht)) hcap.1 hcap.2⟩
+  exact ⟨l.reverse, rfl, fillOk_of_acc (hacc (makeEnum_ok r p hr hp)) hcap.1 hcap.2⟩
 
 theorem ndom_dec (y : Nat) : getNdom y 12 = 31 := by
   simp [getNdom, mdays]
 
-/-- `fillWly` ends, and its result is fine when the seed's time of day goes with the rule's BYHOUR / BYMINUTE /
-BYSECOND parts -/
+/-- `fillWly` ends, and its result is fine -/
 theorem fillWly_spec (r : Rule) (p : Inst) (n : Nat) (hr : WfRule r) (hp : WfInst p) :
-    ∃ l, fillWly r p n = some l ∧ (TimeOk r p → FillOk r p n l) := by
+    ∃ l, fillWly r p n = some l ∧ FillOk r p n l := by
   unfold fillWly
   have hy := hp.year
   rw [if_neg (by rw [hr.scale]; omega)]
   simp only
   cases hcap : capNti r n with
-  | none => exact ⟨[], rfl, fun _ => fillOk_nil r p n⟩
+  | none => exact ⟨[], rfl, fillOk_nil r p n⟩
   | some nti =>
     have hcap' := capNti_spec hr hcap
     simp only
     by_cases c1 : p.m = 0 ∨ p.m > 12 ∨ p.d = 0 ∨ p.d > 31
-    · rw [if_pos c1]; exact ⟨[], rfl, fun _ => fillOk_nil r p n⟩
+    · rw [if_pos c1]; exact ⟨[], rfl, fillOk_nil r p n⟩
     · rw [if_neg c1]
       have hv : VD p.y p.m p.d := ⟨hp.month.1, hp.month.2, hp.day.1, hp.day.2⟩
       by_cases c2 : wlyWdMask r.dow ≠ 0
